@@ -112,6 +112,9 @@ func (v *ClusterView) Snapshot() *ClusterView {
 type MergeOptions struct {
 	MaxClockSkew              time.Duration // 若 >0 且 other.Timestamp 与本地差超过此值，不采纳 other 的 Epoch/Timestamp
 	VersionConcurrentStrategy int           // 0=TakeMax, 1=PreferLocal, 2=PreferRemote
+	// IsExpired 若非 nil，则本视图中不存在、且被其判定为已过期（LastSeen 已超过故障检测移除阈值）的成员不会被采纳：
+	// 合并是成员的并集而移除只发生在本地，若采纳他人视图中尚未移除的过期成员，已崩溃或已离开的成员会被反复加回、再被移除，永不收敛
+	IsExpired func(member *NodeState) bool
 }
 
 // MergeFrom 将 other 的成员与版本信息合并到本视图，使用默认策略（TakeMax、不校验时钟偏差）。
@@ -137,17 +140,23 @@ func (v *ClusterView) MergeFromWithOptions(other *ClusterView, opts MergeOptions
 			continue
 		}
 		existing, ok := v.Members[id]
+		if !ok && opts.IsExpired != nil && opts.IsExpired(otherState) {
+			continue
+		}
 		if !ok || otherState.IsNewerThan(existing) {
 			v.Members[id] = otherState.Clone()
 			changed = true
 		}
 	}
 	v.recomputeCounts()
-	mergedVV := v.VersionVector.Merge(other.VersionVector)
-	if !mergedVV.Equal(v.VersionVector) {
+	// 合并后的版本向量同样只保留当前成员的分量再与合并前比较：对方视图中可能仍有本视图已移除（且不再采纳）的成员，
+	// 其分量每次合并都会被并入、下次合并前又被压缩掉，若据此判定“发生变更”，每收到一条 Gossip 都会触发一轮广播
+	previousVV := v.VersionVector
+	v.VersionVector = v.VersionVector.Merge(other.VersionVector)
+	v.recomputeCounts()
+	if !v.VersionVector.Equal(previousVV) {
 		changed = true
 	}
-	v.VersionVector = mergedVV
 
 	skipEpochTimestamp := false
 	if opts.MaxClockSkew > 0 {
